@@ -228,7 +228,17 @@ fn bin_ref(k: u64) -> ReferenceSequence<BinnedIndex> {
 const NS: [u64; 4] = [0, 1, 300, 20];
 
 fn names(n: u64) -> ReferenceSequenceNames {
-    (0..n).map(|i| BString::from(format!("contig{i}"))).collect()
+    // ASCII mixed with valid multibyte UTF-8 (2-, 3- and 4-byte characters)
+    (0..n)
+        .map(|i| {
+            BString::from(match i % 4 {
+                0 => format!("contig{i}"),
+                1 => format!("chr\u{3b1}{i}"),
+                2 => format!("\u{67d3}\u{8272}\u{4f53}{i}"),
+                _ => format!("chr\u{1d7d9}{i}"),
+            })
+        })
+        .collect()
 }
 
 fn sum_binning<I>(ix: &csi::binning_index::Index<I>) -> String
@@ -352,7 +362,7 @@ fn fai_fmt() -> Fmt<fai::Index> {
         .map(|&n| {
             fai::Index::from(
                 (0..n)
-                    .map(|i| fai::Record::new(format!("sq{i}"), 1000 + i, 7 + 1020 * i, NonZero::new(60).unwrap(), NonZero::new(61).unwrap()))
+                    .map(|i| fai::Record::new(["sq", "chr\u{3b1}", "\u{67d3}\u{8272}\u{4f53}", "chr\u{1d7d9}"][i as usize % 4].to_string() + &i.to_string(), 1000 + i, 7 + 1020 * i, NonZero::new(60).unwrap(), NonZero::new(61).unwrap()))
                     .collect::<Vec<_>>(),
             )
         })
